@@ -18,7 +18,7 @@ KINDS = ['energy', 'energy', 'cone0', 'iso', 'kG0', 'structure', 'edges']
 def plan(tier):
     n = 288 if tier == 'quick' else 3600
     return dict(n_cases=n, shards=16, min_nontrivial=n // 3,
-                min_tags={'kind:energy': n // 6, 'kind:cone0': n // 10, 'kind:iso': n // 10, 'kind:kG0': n // 10, 'kind:structure': n // 10, 'kind:edges': n // 10,
+                min_tags={'kind:energy': n // 6, 'kind:cone0': n // 10, 'kind:iso': n // 10, 'kind:kG0': n // 10, 'kind:structure': n // 10, 'kind:edges': n // 10, 'force_ortho': n // 40,
                           'geom:cone': n // 10, 'geom:cylinder': n // 10},
                 watchdog_s=2400 if tier == 'quick' else 14000,
                 rule='registered classical and first-order-shear shell models with their boundary-condition variants, r2/L over a decade, alpha in {0} u (0.5,60) deg, '
@@ -200,6 +200,10 @@ def springs_of(model):
 def case_energy(c, rng, tier):
     mmax = 4 if tier == 'quick' else 6
     d = gen.shell_desc(rng, models=gen.CLPT_MODELS + gen.ISO_MODELS, mmax=mmax, nmax=3)
+    if 'stack' in d and not d.get('force_ortho') and rng.random() < 0.25:
+        d['force_ortho'] = True       # the documented zeroing of the 16/26 couplings: a quarter of the laminated shells of the energy clause
+    if d.get('force_ortho'):
+        c.tag('force_ortho')
     c.desc['shell'] = d
     cone = d['alphadeg'] != 0
     c.tag('model:' + d['model'], 'geom:cone' if cone else 'geom:cylinder')
